@@ -349,8 +349,8 @@ class CoreHarness(Harness):
                 b = sel[0] * (1 << self.bankbits) + bank
                 if rows[b] != -1: raise Violation("dram.act_open_bank", "ACT to bank %d which has row %d open" % (b, rows[b]), cmd="ACT", bank=b)
                 if reqq is not None:
-                    if not reqq[b]: raise Violation("dram.act_without_request", "ACT bank %d with no outstanding request" % b, cmd="ACT")
-                    if reqq[b][0][1] != adr: raise Violation("dram.act_wrong_row", "ACT bank %d row %d but oldest request addresses row %d" % (b, adr, reqq[b][0][1]), cmd="ACT", bank=b)
+                    # an activate that no request asked for (or of another row) is wasteful but legal: the statement judges the RD/WR that follows
+                    if not reqq[b] or reqq[b][0][1] != adr: cov["ACT_not_for_oldest_request"] = cov.get("ACT_not_for_oldest_request", 0) + 1
                 if newage is not None: self._t_act(agesd, newage, b, ph)
                 rows[b] = adr; cov["ACT"] = cov.get("ACT", 0) + 1
             elif not ras_n and cas_n and not we_n:                            # PRE / PREA
@@ -636,7 +636,8 @@ class CoreHarness(Harness):
             self.report("refresh.starved", "%d refreshes owed (postponing=%d)" % (owed, self.postponing), owed=owed)
             owed = self.postponing + self.ref_slack
         if owed < -self.postponing:
-            self.report("refresh.too_many", "more refreshes issued than intervals elapsed", owed=owed)
+            # refreshing ahead of schedule is allowed (the statement bounds the rate from below only): counted, not reported
+            self.cov["refreshes_ahead_of_schedule"] = self.cov.get("refreshes_ahead_of_schedule", 0) + 1
             owed = -self.postponing
         return (period, owed, grp, prea_age, zqc)
 
